@@ -415,7 +415,7 @@ theorem checkDiag_sound {lines : List Str} (h : checkDiag lines = true) (fs : Fi
   · rename_i p hp
     simp only [Bool.and_eq_true] at h
     obtain ⟨h1, h2⟩ := h
-    rw [assemble_eq_from hp (expand_noinclude fs 63 [] p h1)]
+    rw [assemble_eq_from hp (expand_noinclude fs fs.length [] p h1)]
     split at h2
     · assumption
     · cases h2
